@@ -210,14 +210,21 @@ Definition detect_witness (pr : peer_state) (t : tyid) (x : uuid * tyid * value)
     | v => x.1.2 = t /\ x.2 = v
     end.
 
-Lemma signal_e2u pr u t v : t_e2u (signal_component_changed pr u t v) = t_e2u pr.
-Proof. unfold signal_component_changed. destruct (mem_pair (u, t) (t_ctok pr)); reflexivity. Qed.
-
-Lemma signal_queue pr u t v x :
-  In x (t_queue (signal_component_changed pr u t v)) -> In x (t_queue pr) \/ x = (u, t, v).
+Lemma signal_e2u pr u t v ch : t_e2u (signal_component_changed pr u t v ch) = t_e2u pr.
 Proof.
-  unfold signal_component_changed. destruct (mem_pair (u, t) (t_ctok pr)); cbn [t_queue set]; [tauto|].
-  intros H. apply in_app_or in H as [H|[<-|[]]]; tauto.
+  unfold signal_component_changed. destruct (tok_find (u, t) (t_ctok pr)) as [at_|]; [|reflexivity].
+  cbv zeta. destruct (at_ =? ch); reflexivity.
+Qed.
+
+(* whichever branch is taken (no debounce entry, or an entry of another tick), the only value that
+   can be queued is the signalled one *)
+Lemma signal_queue pr u t v ch x :
+  In x (t_queue (signal_component_changed pr u t v ch)) -> In x (t_queue pr) \/ x = (u, t, v).
+Proof.
+  unfold signal_component_changed. destruct (tok_find (u, t) (t_ctok pr)) as [at_|]; cbv zeta.
+  - destruct (at_ =? ch); cbn [t_queue set]; [tauto|].
+    intros H. apply in_app_or in H as [H|[<-|[]]]; tauto.
+  - cbn [t_queue set]. intros H. apply in_app_or in H as [H|[<-|[]]]; tauto.
 Qed.
 
 (* the asset switch a react system is gated by *)
@@ -513,11 +520,15 @@ Section invariant.
     destruct (p_panic (add_child pr p c)); repeat apply Inv_add_child; exact HI.
   Qed.
 
-  Lemma Inv_signal pr u t v : Inv pr -> qP (u, t, v) -> Inv (signal_component_changed pr u t v).
+  Lemma Inv_signal pr u t v ch : Inv pr -> qP (u, t, v) -> Inv (signal_component_changed pr u t v ch).
   Proof.
-    intros HI Hq. unfold signal_component_changed. destruct (mem_pair (u, t) (t_ctok pr)); [irr|].
-    apply Inv_set_queue; [exact HI|]. intros x Hx.
-    apply in_app_or in Hx as [Hx|[<-|[]]]; [eapply i_queue; eassumption|exact Hq].
+    intros HI Hq.
+    assert (Hpush : forall a, Inv a -> Inv (a <| t_queue := t_queue a ++ [(u, t, v)] |>)).
+    { intros a Ha. apply Inv_set_queue; [exact Ha|]. intros x Hx.
+      apply in_app_or in Hx as [Hx|[<-|[]]]; [eapply i_queue; eassumption|exact Hq]. }
+    unfold signal_component_changed. destruct (tok_find (u, t) (t_ctok pr)) as [at_|]; [|apply Hpush; exact HI].
+    cbv zeta. assert (HI' : Inv (pr <| t_ctok := tok_remove (u, t) (t_ctok pr) |>)) by irr.
+    destruct (at_ =? ch); [exact HI'|apply Hpush; exact HI'].
   Qed.
 
   Lemma Inv_apply_component_change pr e t v :
@@ -537,8 +548,8 @@ Section invariant.
                            | None => true
                            | Some c => negb (value_eqb (c_val c) v')
                            end
-                        then (upd_ent (pr <| t_ctok := (u, wire_type t v) :: remove_pair (u, wire_type t v) (t_ctok pr) |>) e
-                                (put_comp (p_tick (pr <| t_ctok := (u, wire_type t v) :: remove_pair (u, wire_type t v) (t_ctok pr) |>)) t' v'), true)
+                        then (upd_ent (pr <| t_ctok := (u, wire_type t v, p_tick pr) :: tok_remove (u, wire_type t v) (t_ctok pr) |>) e
+                                (put_comp (p_tick (pr <| t_ctok := (u, wire_type t v, p_tick pr) :: tok_remove (u, wire_type t v) (t_ctok pr) |>)) t' v'), true)
                         else (pr, false)
                     end
                 end).1).
